@@ -52,70 +52,8 @@ func selfTest(p *Prog, r *Result, verifDir string, seed int) {
 			continue
 		}
 		o := outcome{Seed: m.Seed}
-		scratch, err := os.MkdirTemp("/var/tmp", "verif-selftest-")
-		if err != nil {
-			o.Note = "cannot create scratch dir: " + err.Error()
-			outs = append(outs, o)
-			continue
-		}
-		func() {
-			defer os.RemoveAll(scratch)
-			// copy the working tree (without .git)
-			cp := exec.Command("rsync", "-a", "--exclude", ".git", p.Repo+"/", scratch+"/")
-			if out, err := cp.CombinedOutput(); err != nil {
-				o.Note = "copy failed: " + strings.TrimSpace(string(out))
-				return
-			}
-			patch := filepath.Join(filepath.Dir(mf), "patch.diff")
-			ap := exec.Command("patch", "-p1", "-s", "--fuzz=3", "-i", patch)
-			ap.Dir = scratch
-			if out, err := ap.CombinedOutput(); err != nil {
-				o.Note = "patch no longer applies to the current tree: " + strings.TrimSpace(string(out))
-				return
-			}
-			o.Applied = true
-			sp, err := loadProg(scratch, false)
-			if err != nil {
-				o.Note = "seeded tree does not type-check: " + err.Error()
-				return
-			}
-			sr := newResult(r.ID)
-			func() {
-				defer func() {
-					if e := recover(); e != nil {
-						sr.undecided("panic", "checker", "", fmt.Sprint(e))
-					}
-				}()
-				registry[r.ID](sp, sr, "quick")
-			}()
-			// apply count minima like finish() does
-			counts := map[string]int{}
-			for _, ob := range sr.Obligs {
-				counts[ob.Rule]++
-			}
-			rules := map[string]bool{}
-			for rule, min := range sr.RuleMin {
-				if counts[rule] < min {
-					rules["count:"+rule] = true
-				}
-			}
-			base := map[string]bool{}
-			for _, ob := range r.Obligs {
-				if ob.Status != stOK {
-					base[ob.key()] = true
-				}
-			}
-			for _, ob := range sr.Obligs {
-				if ob.Status != stOK && !base[ob.key()] {
-					rules[ob.Rule] = true
-				}
-			}
-			for k := range rules {
-				o.Rules = append(o.Rules, k)
-			}
-			sort.Strings(o.Rules)
-			o.Detected = len(o.Rules) > 0
-		}()
+		o.Applied, o.Rules, o.Note = replayPatch(p, r, filepath.Join(filepath.Dir(mf), "patch.diff"))
+		o.Detected = len(o.Rules) > 0
 		outs = append(outs, o)
 	}
 	missed := 0
@@ -129,4 +67,118 @@ func selfTest(p *Prog, r *Result, verifDir string, seed int) {
 	r.Analysed["selftest_seeds_tried"] = len(outs)
 	r.Analysed["selftest_seeds_missed"] = missed
 	r.observe("thorough tier: %d kept seeded change(s) for this property re-applied to a scratch copy of the current tree and analysed with the same rules; %d not flagged", len(outs), missed)
+}
+
+// replayPatch applies one patch to a scratch copy of the current tree, type-checks it and runs the property's rules on it;
+// it returns the rules that report something the unpatched tree does not.
+func replayPatch(p *Prog, r *Result, patch string) (applied bool, fired []string, note string) {
+	scratch, err := os.MkdirTemp("/var/tmp", "verif-selftest-")
+	if err != nil {
+		return false, nil, "cannot create scratch dir: " + err.Error()
+	}
+	defer os.RemoveAll(scratch)
+	// copy the working tree (without .git)
+	cp := exec.Command("rsync", "-a", "--exclude", ".git", p.Repo+"/", scratch+"/")
+	if out, err := cp.CombinedOutput(); err != nil {
+		return false, nil, "copy failed: " + strings.TrimSpace(string(out))
+	}
+	ap := exec.Command("patch", "-p1", "-s", "--fuzz=3", "-i", patch)
+	ap.Dir = scratch
+	if out, err := ap.CombinedOutput(); err != nil {
+		return false, nil, "patch no longer applies to the current tree: " + strings.TrimSpace(string(out))
+	}
+	applied = true
+	sp, err := loadProg(scratch, false)
+	if err != nil {
+		return applied, nil, "patched tree does not type-check: " + err.Error()
+	}
+	sr := newResult(r.ID)
+	func() {
+		defer func() {
+			if e := recover(); e != nil {
+				sr.undecided("panic", "checker", "", fmt.Sprint(e))
+			}
+		}()
+		registry[r.ID](sp, sr, "quick")
+	}()
+	// apply count minima like finish() does
+	counts := map[string]int{}
+	for _, ob := range sr.Obligs {
+		counts[ob.Rule]++
+	}
+	rules := map[string]bool{}
+	for rule, min := range sr.RuleMin {
+		if counts[rule] < min {
+			rules["count:"+rule] = true
+		}
+	}
+	base := map[string]bool{}
+	for _, ob := range r.Obligs {
+		if ob.Status != stOK {
+			base[ob.key()] = true
+		}
+	}
+	for _, ob := range sr.Obligs {
+		if ob.Status != stOK && !base[ob.key()] {
+			rules[ob.Rule+" @ "+ob.Construct] = true
+		}
+	}
+	for k := range rules {
+		fired = append(fired, k)
+	}
+	sort.Strings(fired)
+	return applied, fired, ""
+}
+
+// neutralTest replays the kept behaviour-preserving changes (<verif>/neutral/<name>/patch.diff) that touch a file in which
+// this property has obligations; the rules must stay silent on each. An alarm here is a weakness of the checker (printed as
+// SELFTEST-FALSE-ALARM and recorded in the evidence), never a VIOLATION about the repository.
+func neutralTest(p *Prog, r *Result, verifDir string) {
+	files := map[string]bool{}
+	for _, ob := range r.Obligs {
+		f := ob.Pos
+		if i := strings.Index(f, ":"); i >= 0 {
+			f = f[:i]
+		}
+		f = strings.TrimPrefix(f, p.Repo+"/")
+		if f != "" {
+			files[f] = true
+		}
+	}
+	patches, _ := filepath.Glob(filepath.Join(verifDir, "neutral", "*", "patch.diff"))
+	sort.Strings(patches)
+	type outcome struct {
+		Name    string   `json:"neutral_change"`
+		Applied bool     `json:"applied"`
+		Alarms  []string `json:"alarms,omitempty"`
+		Note    string   `json:"note,omitempty"`
+	}
+	var outs []outcome
+	alarms := 0
+	for _, pf := range patches {
+		b, err := os.ReadFile(pf)
+		if err != nil {
+			continue
+		}
+		touches := false
+		for _, l := range strings.Split(string(b), "\n") {
+			if strings.HasPrefix(l, "+++ b/") && files[strings.TrimSpace(strings.TrimPrefix(l, "+++ b/"))] {
+				touches = true
+			}
+		}
+		if !touches {
+			continue
+		}
+		o := outcome{Name: filepath.Base(filepath.Dir(pf))}
+		o.Applied, o.Alarms, o.Note = replayPatch(p, r, pf)
+		if o.Applied && (len(o.Alarms) > 0 || o.Note != "") {
+			alarms++
+			fmt.Printf("SELFTEST-FALSE-ALARM property=%s neutral=%s: %s %s (checker weakness: the change preserves behaviour)\n", r.ID, o.Name, strings.Join(o.Alarms, "; "), o.Note)
+		}
+		outs = append(outs, o)
+	}
+	r.Tables["selftest_neutral_changes"] = outs
+	r.Analysed["selftest_neutral_tried"] = len(outs)
+	r.Analysed["selftest_neutral_alarms"] = alarms
+	r.observe("thorough tier: %d kept behaviour-preserving change(s) touching this property's files re-applied to a scratch copy and analysed with the same rules; %d raised an alarm", len(outs), alarms)
 }
